@@ -68,6 +68,7 @@ class Gen:
         self.maxdepth = maxdepth
         self.depth_seen = 0
         self.define_in_tested = False
+        self.mutes = 0
 
     def line(self):
         i = self.next_id
@@ -79,7 +80,11 @@ class Gen:
         out = []
         for _ in range(rng.randint(1, 3)):
             r = rng.random()
-            if r < 0.45 or self.next_id > 200:
+            if r < 0.09:
+                # a mute change: counts only when selected, and is not a chain opener for the skipping logic
+                out.append({'b': 'mute', 'd': rng.choice(['mute', 'mute', 'unmute', 'emit'])})
+                self.mutes += 1
+            elif r < 0.45 or self.next_id > 200:
                 out.append(self.line())
             elif r < 0.65:
                 name = rng.choice(SYMS)
@@ -123,6 +128,8 @@ def flatten(blocks):
     for b in blocks:
         if b['b'] == 'line':
             out.append({'k': 'data', 'w': 1, 'vals': [('num', b['id'] % 256)]})
+        elif b['b'] == 'mute':
+            out.append({'k': 'mute'} if b['d'] == 'mute' else {'k': 'unmute', 'emit': b['d'] == 'emit'})
         elif b['b'] == 'define':
             st = {'k': 'define', 'name': b['name']}
             if 'v' in b:
@@ -161,6 +168,8 @@ def dec_render(e):
 def render_stmt(st):
     if st['k'] == 'raw':
         return st['text']
+    if st['k'] == 'unmute' and st.get('emit'):
+        return '#emit'
     if st['k'] == 'define':
         return '#define ' + st['name'] + ('' if 'v' not in st else ' ' + str(st['v']))
     if st['k'] == 'cond':
@@ -198,7 +207,13 @@ def model_stmt(st):
     return P.model_stmt(st)
 
 
+MUTE_ID, UNMUTE_ID = 1000000, 1000001
+
+
 def model_block(b):
+    if b['b'] == 'mute':
+        # for the block-tree semantics a mute change is a line like any other: what matters is whether it is selected
+        return {'b': 'line', 'id': MUTE_ID if b['d'] == 'mute' else UNMUTE_ID}
     if b['b'] != 'chain':
         return b
     o = dict(b['open'])
@@ -239,7 +254,7 @@ def gen_case(rng, tier):
             blocks.append(g.chain(1, numeric, ()))
         blocks.append(g.line())
         return {'kind': 'tree', 'blocks': blocks, 'presyms': presyms, 'depth': g.depth_seen,
-                'define_in_tested': g.define_in_tested}
+                'define_in_tested': g.define_in_tested, 'mutes': g.mutes}
     if r < 0.9:
         # stray / mismatched directives
         g = Gen(rng, 2)
@@ -375,7 +390,20 @@ def judge(case, ir, mrs):
             if actual is not None:
                 return {'verdict': Verdict.VIOLATION, 'tags': tags, 'detail': f'spec rejects ({spec["err"]}) but assembled {actual.hex()}; ' + det}
             return {'verdict': Verdict.OK, 'nontrivial': True, 'tags': tags, 'detail': det[:300]}
-        spec_lines = bytes(x % 256 for x in spec['lines'])
+        # selected mute changes act on the selected lines that follow them (counter, never below zero)
+        sel, muted = [], 0
+        for x in spec['lines']:
+            if x == MUTE_ID:
+                muted += 1
+            elif x == UNMUTE_ID:
+                muted = max(0, muted - 1)
+            else:
+                sel.append(None if muted else x % 256)      # a muted line keeps its address: the image shows the fill there
+        while sel and sel[-1] is None:
+            sel.pop()                                        # ... unless nothing is emitted behind it (the image ends earlier)
+        spec_lines = bytes(0 if x is None else x for x in sel)
+        if case.get('mutes'):
+            tags.append('mute-changes-in-tree')
         if actual is None:
             return {'verdict': Verdict.VIOLATION, 'tags': tags,
                     'detail': f'tree semantics selects {list(spec_lines)} but the real code rejects: {str(ir.get("msg"))[:200]}; ' + det}
